@@ -1,0 +1,473 @@
+//! Verification hooks (compiled only with the cargo feature `multiqueue2_verif`).
+//!
+//! Every synchronisation primitive used by the crate is routed through the thin
+//! wrappers in this module.  With no runtime registered (or on a thread the
+//! runtime does not manage) each wrapper behaves exactly like the primitive it
+//! wraps.  A verification harness registers a [`Runtime`] with [`set_runtime`]
+//! and is then called *before* every shared-memory operation, which lets it
+//! serialise threads and choose the interleaving.
+#![allow(missing_docs)]
+
+use std::sync::atomic::Ordering;
+use std::sync::atomic::{AtomicPtr as StdAtomicPtr, AtomicUsize as StdAtomicUsize};
+
+/// Kind of shared-memory operation announced to the runtime.
+#[derive(Clone, Copy, Debug, PartialEq, Eq)]
+pub enum OpKind {
+    Load,
+    Store,
+    Rmw,
+    Cas,
+    CasWeak,
+    Fence,
+    PtrLoad,
+    PtrCas,
+}
+
+/// The interface a verification harness implements.
+///
+/// All methods are called on the thread performing the operation.  The runtime
+/// decides (from its own thread-local state) whether the calling thread is
+/// managed; for unmanaged threads every method must return immediately
+/// (`weak_cas_may_fail`/`on_dealloc` returning `false`).
+pub trait Runtime: Sync {
+    /// Is the calling thread scheduled by the runtime?
+    fn manages_current_thread(&self) -> bool;
+    /// Called before an atomic operation or fence on `addr` (0 for fences).
+    fn before_op(&self, kind: OpKind, addr: usize);
+    /// Called after the operation; `changed` tells whether the stored value differs
+    /// from the previous one (always false for loads and fences).
+    fn after_op(&self, kind: OpKind, addr: usize, changed: bool);
+    /// May a `compare_exchange_weak` fail spuriously now?
+    fn weak_cas_may_fail(&self) -> bool;
+    /// Blocks (in the runtime's sense) until the mutex at `addr` is free, then marks it held.
+    fn mutex_lock(&self, addr: usize);
+    /// Tries to take the mutex at `addr`; returns whether it is now held by the caller.
+    fn mutex_try_lock(&self, addr: usize) -> bool;
+    /// The mutex at `addr` has been released.
+    fn mutex_unlock(&self, addr: usize);
+    /// Atomically release `mutex` and wait on `cv`; returns holding `mutex` again
+    /// (in the runtime's model; the real mutex is re-locked by the caller).
+    fn cond_wait(&self, cv: usize, mutex: usize);
+    fn cond_notify_all(&self, cv: usize);
+    fn yield_now(&self);
+    fn sleep(&self);
+    /// A non-atomic dereference of crate-internal bookkeeping memory at `addr` is about to happen.
+    fn touch(&self, addr: usize);
+    fn on_alloc(&self, addr: usize, bytes: usize);
+    /// Returns true when the block must be quarantined (kept allocated) instead of freed.
+    fn on_dealloc(&self, addr: usize, bytes: usize) -> bool;
+}
+
+static RUNTIME: StdAtomicPtr<&'static dyn Runtime> = StdAtomicPtr::new(std::ptr::null_mut());
+
+/// Registers the process-wide runtime (may be called once; later calls replace it).
+pub fn set_runtime(rt: &'static dyn Runtime) {
+    let boxed: &'static mut &'static dyn Runtime = Box::leak(Box::new(rt));
+    RUNTIME.store(boxed as *mut _, Ordering::SeqCst);
+}
+
+#[inline(always)]
+fn rt() -> Option<&'static dyn Runtime> {
+    let p = RUNTIME.load(Ordering::Relaxed);
+    if p.is_null() {
+        None
+    } else {
+        Some(unsafe { *p })
+    }
+}
+
+#[inline(always)]
+fn before(kind: OpKind, addr: usize) {
+    if let Some(r) = rt() {
+        r.before_op(kind, addr)
+    }
+}
+
+#[inline(always)]
+fn after(kind: OpKind, addr: usize, changed: bool) {
+    if let Some(r) = rt() {
+        r.after_op(kind, addr, changed)
+    }
+}
+
+pub fn touch<T>(p: *const T) {
+    if let Some(r) = rt() {
+        r.touch(p as usize)
+    }
+}
+
+pub fn on_alloc(addr: usize, bytes: usize) {
+    if let Some(r) = rt() {
+        r.on_alloc(addr, bytes)
+    }
+}
+
+pub fn on_dealloc(addr: usize, bytes: usize) -> bool {
+    match rt() {
+        Some(r) => r.on_dealloc(addr, bytes),
+        None => false,
+    }
+}
+
+pub fn fence(ord: Ordering) {
+    before(OpKind::Fence, 0);
+    std::sync::atomic::fence(ord);
+    after(OpKind::Fence, 0, false);
+}
+
+pub fn yield_now() {
+    match rt() {
+        Some(r) => r.yield_now(),
+        None => std::thread::yield_now(),
+    }
+}
+
+pub fn sleep(d: std::time::Duration) {
+    match rt() {
+        Some(r) => {
+            let _ = d;
+            r.sleep()
+        }
+        None => std::thread::sleep(d),
+    }
+}
+
+/// The real primitives, for runtimes that need to pass an operation through.
+pub fn real_yield_now() {
+    std::thread::yield_now()
+}
+
+#[repr(transparent)]
+pub struct AtomicUsize {
+    inner: StdAtomicUsize,
+}
+
+impl AtomicUsize {
+    pub const fn new(v: usize) -> AtomicUsize {
+        AtomicUsize {
+            inner: StdAtomicUsize::new(v),
+        }
+    }
+
+    #[inline(always)]
+    fn addr(&self) -> usize {
+        self as *const AtomicUsize as usize
+    }
+
+    /// Reads the value without announcing the access (for harness-side inspection only).
+    pub fn peek(&self) -> usize {
+        self.inner.load(Ordering::SeqCst)
+    }
+
+    pub fn load(&self, ord: Ordering) -> usize {
+        before(OpKind::Load, self.addr());
+        let v = self.inner.load(ord);
+        after(OpKind::Load, self.addr(), false);
+        v
+    }
+
+    pub fn store(&self, val: usize, ord: Ordering) {
+        before(OpKind::Store, self.addr());
+        let old = self.inner.load(Ordering::Relaxed);
+        self.inner.store(val, ord);
+        after(OpKind::Store, self.addr(), old != val);
+    }
+
+    pub fn fetch_add(&self, val: usize, ord: Ordering) -> usize {
+        before(OpKind::Rmw, self.addr());
+        let old = self.inner.fetch_add(val, ord);
+        after(OpKind::Rmw, self.addr(), val != 0);
+        old
+    }
+
+    pub fn fetch_sub(&self, val: usize, ord: Ordering) -> usize {
+        before(OpKind::Rmw, self.addr());
+        let old = self.inner.fetch_sub(val, ord);
+        after(OpKind::Rmw, self.addr(), val != 0);
+        old
+    }
+
+    pub fn fetch_or(&self, val: usize, ord: Ordering) -> usize {
+        before(OpKind::Rmw, self.addr());
+        let old = self.inner.fetch_or(val, ord);
+        after(OpKind::Rmw, self.addr(), (old | val) != old);
+        old
+    }
+
+    pub fn fetch_and(&self, val: usize, ord: Ordering) -> usize {
+        before(OpKind::Rmw, self.addr());
+        let old = self.inner.fetch_and(val, ord);
+        after(OpKind::Rmw, self.addr(), (old & val) != old);
+        old
+    }
+
+    pub fn compare_exchange(
+        &self,
+        current: usize,
+        new: usize,
+        success: Ordering,
+        failure: Ordering,
+    ) -> Result<usize, usize> {
+        before(OpKind::Cas, self.addr());
+        let r = self.inner.compare_exchange(current, new, success, failure);
+        after(OpKind::Cas, self.addr(), r.is_ok() && current != new);
+        r
+    }
+
+    pub fn compare_exchange_weak(
+        &self,
+        current: usize,
+        new: usize,
+        success: Ordering,
+        failure: Ordering,
+    ) -> Result<usize, usize> {
+        before(OpKind::CasWeak, self.addr());
+        if let Some(r) = rt() {
+            if r.weak_cas_may_fail() {
+                let seen = self.inner.load(failure);
+                after(OpKind::CasWeak, self.addr(), false);
+                return Err(seen);
+            }
+        }
+        // Under a serialising runtime the strong form is used so that the only
+        // spurious failures are the ones the runtime chose to inject.
+        let r = if rt().is_some() {
+            self.inner.compare_exchange(current, new, success, failure)
+        } else {
+            self.inner
+                .compare_exchange_weak(current, new, success, failure)
+        };
+        after(OpKind::CasWeak, self.addr(), r.is_ok() && current != new);
+        r
+    }
+}
+
+#[repr(transparent)]
+pub struct AtomicPtr<T> {
+    inner: StdAtomicPtr<T>,
+}
+
+impl<T> AtomicPtr<T> {
+    pub const fn new(p: *mut T) -> AtomicPtr<T> {
+        AtomicPtr {
+            inner: StdAtomicPtr::new(p),
+        }
+    }
+
+    #[inline(always)]
+    fn addr(&self) -> usize {
+        self as *const AtomicPtr<T> as usize
+    }
+
+    pub fn load(&self, ord: Ordering) -> *mut T {
+        before(OpKind::PtrLoad, self.addr());
+        let v = self.inner.load(ord);
+        after(OpKind::PtrLoad, self.addr(), false);
+        v
+    }
+
+    pub fn compare_exchange(
+        &self,
+        current: *mut T,
+        new: *mut T,
+        success: Ordering,
+        failure: Ordering,
+    ) -> Result<*mut T, *mut T> {
+        before(OpKind::PtrCas, self.addr());
+        let r = self.inner.compare_exchange(current, new, success, failure);
+        after(OpKind::PtrCas, self.addr(), r.is_ok() && current != new);
+        r
+    }
+}
+
+/// Stand-in for the parts of `parking_lot` the crate uses.
+pub mod parking_lot {
+    extern crate parking_lot as real;
+    use super::rt;
+    use std::ops::{Deref, DerefMut};
+
+    #[derive(Default)]
+    pub struct Mutex<T> {
+        inner: real::Mutex<T>,
+    }
+
+    pub struct MutexGuard<'a, T> {
+        guard: Option<real::MutexGuard<'a, T>>,
+        addr: usize,
+    }
+
+    impl<T> Mutex<T> {
+        pub fn new(v: T) -> Mutex<T> {
+            Mutex {
+                inner: real::Mutex::new(v),
+            }
+        }
+
+        pub fn lock(&self) -> MutexGuard<'_, T> {
+            let addr = self as *const Mutex<T> as *const u8 as usize;
+            if let Some(r) = rt() {
+                r.mutex_lock(addr);
+            }
+            MutexGuard {
+                guard: Some(self.inner.lock()),
+                addr,
+            }
+        }
+    }
+
+    impl<'a, T> Deref for MutexGuard<'a, T> {
+        type Target = T;
+        fn deref(&self) -> &T {
+            self.guard.as_ref().unwrap()
+        }
+    }
+
+    impl<'a, T> DerefMut for MutexGuard<'a, T> {
+        fn deref_mut(&mut self) -> &mut T {
+            self.guard.as_mut().unwrap()
+        }
+    }
+
+    impl<'a, T> Drop for MutexGuard<'a, T> {
+        fn drop(&mut self) {
+            self.guard.take();
+            if let Some(r) = rt() {
+                r.mutex_unlock(self.addr);
+            }
+        }
+    }
+
+    #[derive(Default)]
+    pub struct Condvar {
+        inner: real::Condvar,
+    }
+
+    impl Condvar {
+        pub fn new() -> Condvar {
+            Condvar {
+                inner: real::Condvar::new(),
+            }
+        }
+
+        pub fn wait<T>(&self, guard: &mut MutexGuard<'_, T>) {
+            let cv = self as *const Condvar as usize;
+            match rt() {
+                Some(r) if r.manages_current_thread() => {
+                    let maddr = guard.addr;
+                    real::MutexGuard::unlocked(guard.guard.as_mut().unwrap(), || {
+                        r.cond_wait(cv, maddr)
+                    });
+                }
+                _ => self.inner.wait(guard.guard.as_mut().unwrap()),
+            }
+        }
+
+        pub fn notify_all(&self) {
+            let cv = self as *const Condvar as usize;
+            if let Some(r) = rt() {
+                r.cond_notify_all(cv);
+            }
+            self.inner.notify_all();
+        }
+    }
+}
+
+/// Stand-in for `std::sync::Mutex` as used by the crate (`lock().unwrap()`, `try_lock().map(..)`).
+pub mod std_sync {
+    use super::rt;
+    use std::ops::{Deref, DerefMut};
+    use std::sync::Mutex as RealMutex;
+    use std::sync::MutexGuard as RealGuard;
+
+    pub struct Mutex<T> {
+        inner: RealMutex<T>,
+    }
+
+    pub struct MutexGuard<'a, T> {
+        guard: Option<RealGuard<'a, T>>,
+        addr: usize,
+    }
+
+    impl<T> Mutex<T> {
+        pub fn new(v: T) -> Mutex<T> {
+            Mutex {
+                inner: RealMutex::new(v),
+            }
+        }
+
+        pub fn lock(&self) -> Result<MutexGuard<'_, T>, ()> {
+            let addr = self as *const Mutex<T> as *const u8 as usize;
+            if let Some(r) = rt() {
+                r.mutex_lock(addr);
+            }
+            let g = match self.inner.lock() {
+                Ok(g) => g,
+                Err(p) => p.into_inner(),
+            };
+            Ok(MutexGuard {
+                guard: Some(g),
+                addr,
+            })
+        }
+
+        pub fn try_lock(&self) -> Result<MutexGuard<'_, T>, ()> {
+            let addr = self as *const Mutex<T> as *const u8 as usize;
+            match rt() {
+                Some(r) if r.manages_current_thread() => {
+                    if !r.mutex_try_lock(addr) {
+                        return Err(());
+                    }
+                    let g = match self.inner.lock() {
+                        Ok(g) => g,
+                        Err(p) => p.into_inner(),
+                    };
+                    Ok(MutexGuard {
+                        guard: Some(g),
+                        addr,
+                    })
+                }
+                _ => match self.inner.try_lock() {
+                    Ok(g) => Ok(MutexGuard {
+                        guard: Some(g),
+                        addr,
+                    }),
+                    Err(std::sync::TryLockError::Poisoned(p)) => Ok(MutexGuard {
+                        guard: Some(p.into_inner()),
+                        addr,
+                    }),
+                    Err(std::sync::TryLockError::WouldBlock) => Err(()),
+                },
+            }
+        }
+
+        pub fn get_mut(&mut self) -> Result<&mut T, ()> {
+            match self.inner.get_mut() {
+                Ok(v) => Ok(v),
+                Err(p) => Ok(p.into_inner()),
+            }
+        }
+    }
+
+    impl<'a, T> Deref for MutexGuard<'a, T> {
+        type Target = T;
+        fn deref(&self) -> &T {
+            self.guard.as_ref().unwrap()
+        }
+    }
+
+    impl<'a, T> DerefMut for MutexGuard<'a, T> {
+        fn deref_mut(&mut self) -> &mut T {
+            self.guard.as_mut().unwrap()
+        }
+    }
+
+    impl<'a, T> Drop for MutexGuard<'a, T> {
+        fn drop(&mut self) {
+            self.guard.take();
+            if let Some(r) = rt() {
+                r.mutex_unlock(self.addr);
+            }
+        }
+    }
+}
